@@ -85,6 +85,15 @@ def subst_cases(f, seed):
         for j in range(f["n"]):
             if j != victim:
                 alt["share%d" % j] = prep["shares"][j]
+        # the victim's own share with every block AND the whole block hash tree taken from the other file's
+        # share (self-consistent, but not the tree whose root the share hash chain of this file names)
+        o, x = prep["shares"][victim], other_file["shares"][victim]
+        fo, fx = lib_imm.share_fields(o), lib_imm.share_fields(x)
+        if (fo["data"], fo["block_hashes"]) == (fx["data"], fx["block_hashes"]):
+            sp = bytearray(o)
+            for nm in ("data", "block_hashes"):
+                sp[fo[nm][0]:fo[nm][1]] = x[fx[nm][0]:fx[nm][1]]
+            alt["foreignblocks"] = bytes(sp)
         for mode in ("needed", "intact"):
             for key in sorted(alt):
                 c = mk(f, victim, mode, ["subst", key])
